@@ -36,7 +36,9 @@ I_InsAt(s, x, p) == SubSeq(s, 1, p) \o <<x>> \o SubSeq(s, p + 1, Len(s))
 (***************************** activities *********************************)
 I_Task(W, a) == LET jb == W.jobs[a.j] IN
                 IF jb.kind = "pd" THEN (IF a.part = 1 THEN jb.p ELSE jb.d) ELSE jb
-I_Loc(W, a) == I_Task(W, a).loc
+\* a task is served at one of its alternatives: alternative k = window tws[k] at location locs[k] when the task lists places of its
+\* own ("locs", as long as "tws"), otherwise all windows belong to the one location "loc"
+I_Loc(W, a) == LET t == I_Task(W, a) IN IF "locs" \in DOMAIN t THEN t.locs[a.w] ELSE t.loc
 I_Dur(W, a) == I_Task(W, a).dur
 I_Tw(W, a) == I_Task(W, a).tws[a.w]
 I_StaticDel(W, a) == IF W.jobs[a.j].kind = "del" THEN W.jobs[a.j].q ELSE 0
